@@ -195,15 +195,18 @@ void run_inject(vf::Ctx &c) {
 }
 
 // ---- part 1: traceparent mutations -----------------------------------------------------------------------------
-const MutSpec &tp_spec() {
-  static MutSpec ms;
+// reduced: the alphabet of the second mutation in the thorough tier
+const MutSpec &tp_spec(bool reduced = false) {
+  static MutSpec ms, small;
   if (ms.classes.empty()) {
     // hex digits (zero / non-zero / 'f' matter to the id and version rules), both cases, the characters next to
     // the hex ranges in ASCII, separator, whitespace, control, DEL, 0x80+, NUL
     ms.classes = std::string("017afAFgG/:@`- \t\r\x01\x7f\x80\xff", 21) + std::string(1, '\0');
     ms.tails = {"-", "--", "-00", "-x-y", " \t", "\r\n", std::string("\0\0", 2), "-" + std::string(200, 'z')};
+    small.classes = std::string("0afFg- \x80", 8) + std::string(1, '\0');
+    small.tails = {"-", "-00", " "};
   }
-  return ms;
+  return reduced ? small : ms;
 }
 
 const std::vector<std::string> &tp_seeds() {
@@ -239,7 +242,7 @@ void run_extract(vf::Ctx &c) {
   size_t minpos = 0;
   bool vacuous = false;
   for (int i = 0; i < nm; ++i) {
-    std::string d = mutate(c, in, &minpos, tp_spec());
+    std::string d = mutate(c, in, &minpos, tp_spec(i > 0));
     if (d.empty()) vacuous = true;
     desc += " " + (d.empty() ? std::string("noop") : d);
   }
